@@ -1,7 +1,10 @@
 #!/usr/bin/env python3
 """Confirm a seeded change in a scratch worktree and record it under /verif/seeded/<name>/.
 
-usage: tools/verify_seed.py NAME PROPERTY SEED_DIR [--no-suite]
+usage: tools/verify_seed.py NAME PROPERTY SEED_DIR [--no-suite] [--benign]
+
+--benign: the change is claimed to be behaviour-preserving (a refactoring).  Then the demo must exit 0 on the pristine tree AND with
+the patch, printing the same text both times, and the expected outcome of the checks is that none fires and none fails to decide.
 
 Steps (all in a fresh detached worktree of /repo HEAD under a temp dir, removed afterwards):
   1. demo on the pristine tree must exit 0
@@ -88,6 +91,8 @@ def recheck(name):
     meta = json.load(open(os.path.join(dst, "meta.json")))
     fired, silent, errors, details = run_checks_on_repo(os.path.join(dst, "patch.diff"))
     meta["checks_fired"], meta["checks_analysis_error"], meta["target_check_fired"], meta["reports"] = fired, errors, meta["property"] in fired, details
+    if meta.get("kind") == "behaviour-preserving":
+        meta["all_checks_silent"] = not fired and not errors
     json.dump(meta, open(os.path.join(dst, "meta.json"), "w"), indent=1)
     print("%s property=%s fired=%s errors=%s target_detected=%s" % (name, meta["property"], fired, errors, meta["property"] in fired))
     return 0
@@ -99,6 +104,7 @@ def main():
         return recheck(args[0])
     name, prop, sd = args[:3]
     no_suite = "--no-suite" in sys.argv
+    benign = "--benign" in sys.argv
     patch = os.path.join(sd, "patch.diff")
     demo = os.path.join(sd, "demo.py")
     meta_in = json.load(open(os.path.join(sd, "meta.json"))) if os.path.exists(os.path.join(sd, "meta.json")) else {}
@@ -112,6 +118,7 @@ def main():
         if rc != 0:
             print("REJECT: demo fails on the pristine tree\n" + out[-1500:])
             return 1
+        pristine_out = out
         rc, out = sh(["git", "-C", wt, "apply", "--exclude=SEED/*", patch])
         if rc != 0:
             print("REJECT: patch does not apply\n" + out)
@@ -125,7 +132,16 @@ def main():
         rc, out = run_demo(wt, demo)
         ran.append("demo with patch: exit %d" % rc)
         demo_tail = out.strip().splitlines()[-3:]
-        if rc == 0:
+        if benign:
+            if rc != 0:
+                print("REJECT: demo fails with the patch although the change is claimed to be behaviour-preserving\n" + out[-1500:])
+                return 1
+            same = out == pristine_out
+            ran.append("demo output with patch %s the output on the pristine tree" % ("equals" if same else "DIFFERS from"))
+            if not same:
+                print("REJECT: demo output differs between pristine and patched tree")
+                return 1
+        elif rc == 0:
             print("REJECT: demo passes with the patch")
             return 1
         for s in ("create_bf3file.py", "create_bec2file_with_cust_key.py", "create_bec2file_with_ec_key.py", "verify_dh_secret.py"):
@@ -198,6 +214,8 @@ def main():
     shutil.copy(demo, os.path.join(dst, "demo.py"))
     meta = {
         "property": prop,
+        "kind": "behaviour-preserving" if benign else "breaks-property",
+        "why_equivalent": meta_in.get("why_equivalent", ""),
         "summary": meta_in.get("summary", ""),
         "needs_to_manifest": meta_in.get("needs_to_manifest", ""),
         "files": meta_in.get("files", []),
@@ -208,7 +226,17 @@ def main():
         "target_check_fired": prop in fired,
         "reports": details,
     }
+    if not benign:
+        meta.pop("why_equivalent")
+    else:
+        meta["all_checks_silent"] = not fired and not errors
     json.dump(meta, open(os.path.join(dst, "meta.json"), "w"), indent=1)
+    if benign:
+        print("%s property=%s (behaviour-preserving) fired=%s errors=%s all_silent=%s" % (name, prop, fired, errors, not fired and not errors))
+        for k in fired + errors:
+            for l in details.get(k, [])[:3]:
+                print("   ", l[:300])
+        return 0
     print("%s property=%s fired=%s errors=%s target_detected=%s" % (name, prop, fired, errors, prop in fired))
     for l in details.get(prop, [])[:4]:
         print("   ", l[:300])
